@@ -4,6 +4,20 @@ import FV.Proofs.Stog
   Property theorems only (helper lemmas live in `FV/Proofs/Stog.lean`).  The model is `FV/Model/Stog.lean`
   (`create_stog` as repaired by `fixes/C06_trunk_identity.diff`).  All statements are over an arbitrary linearly
   ordered field `α`; `ε` / `εA` are `Rectangle.distance_epsilon()` / `Rectangle.area_epsilon()`.
+
+  How to read the theorems.  `createStog_true_iff` (and `IsTrunk`) is phrased through the model's own `findLocation`:
+  on its own it says that the candidate loop is an exact "∃ trunk" search, not what a location means.  The geometric
+  reading comes from `findLocation_iff` (`findLocation = s ↔ Abuts ε s t r ∧ areaOverlap ≤ εA`, `Abuts` being an
+  independent definition) and from the two composed theorems `createStog_branches_abut` (soundness) and
+  `createStog_complete` (completeness).
+
+  The hypothesis `WF` (every side of every rectangle `> 2ε`, `ε` the tolerance IN FORCE, which is class-wide) is
+  necessary, not cosmetic: for a thinner rectangle an earlier `elif` of `find_location` pre-empts the right side.
+  Example (ε = 1/8, εA = 1/4): trunk `⟨2,1,4,2⟩`, branch `⟨9/2, 2+1/32, 1, 1/8⟩` abuts EAST within the extent and
+  overlaps nothing, but its bottom side is within ε of the trunk's top side, so the NORTH test fires first and the
+  extent check then answers NO_POLYGON (kernel-checked example at the end of the file).  Recognition is therefore
+  complete only for rectangles whose sides exceed twice the distance tolerance; in FRAME `ε = 1e-12 ×` the smallest
+  dimension of the first design loaded.
 -/
 namespace FV.C06
 open FV FV.Rect FV.Stog
@@ -225,6 +239,11 @@ example : agrees (createStog (1/8 : ℚ) (1/4) [⟨1, 3, 2, 2, "_", false, false
 /-- a duplicate of the trunk is not a branch (the repaired behaviour). -/
 example : agrees (createStog (1/8 : ℚ) (1/4) [⟨2, 1, 4, 2, "_", false, false, .nopoly⟩, ⟨2, 1, 4, 2, "_", false, false, .nopoly⟩])
     false [.nopoly, .nopoly] [2, 2] [1, 1] = true := by decide +kernel
+/-- `WF` is necessary: a branch thinner than `2ε` abutting EAST at the top corner is answered NO_POLYGON. -/
+example : findLocation (1/8 : ℚ) (1/4) ⟨2, 1, 4, 2, "_", false, false, .nopoly⟩
+    ⟨9/2, 2 + 1/32, 1, 1/8, "_", false, false, .nopoly⟩ = .nopoly := by decide +kernel
+example : Abuts (1/8 : ℚ) .east ⟨2, 1, 4, 2, "_", false, false, .nopoly⟩ ⟨9/2, 2 + 1/32, 1, 1/8, "_", false, false, .nopoly⟩ := by
+  simp only [Abuts, xmin, xmax, ymin, ymax, two]; norm_num [abs_lt]
 example : WF (1/8 : ℚ) [⟨1, 3, 2, 2, "_", false, false, .nopoly⟩, ⟨2, 1, 4, 2, "_", false, false, .nopoly⟩] := by
   intro r hr; simp at hr; rcases hr with rfl | rfl <;> norm_num
 example : Abuts (1/8 : ℚ) .north ⟨2, 1, 4, 2, "_", false, false, .nopoly⟩ ⟨1, 3, 2, 2, "_", false, false, .nopoly⟩ := by
